@@ -2,20 +2,32 @@
   C04 / C01 / C10 — the parser model accepts exactly the declarative grammar of `Spec/Grammar.lean` and builds exactly
   the tree the grammar assigns.
 
-  * `complete_operand`, `expr_complete`, `parse_complete` — **completeness**: for every `PTree` `t` with `WellPrec t`,
-    the parser reads `flatten t` and returns `erase t` (the Go-shaped node; hence also `desugar n = eraseT t`).  The whole
-    grammar is covered: atoms, literals, parentheses, prefix and binary operators, `.name`, `[n]`, multi-select lists
-    and hashes, function calls (with `&` arguments), `let`, and the five projection openers `[*]`, `.*`/`*`, `[]`,
-    `[?…]`, `[a:b:c]` with their right-hand sides.
+  The whole grammar is covered in both directions: atoms, literals, parentheses, prefix and binary operators, `.name`,
+  `[n]`, multi-select lists and hashes (primary and dotted), `.[*]`, function calls (with `&` arguments), `let`, and the
+  five projection openers `[*]`, `.*` / leading `*`, `[]`, `[?…]`, `[a:b:c]` with their right-hand sides.
+
+  * `complete_operand`, `complete_rhs`, `expr_complete`, `parse_complete` — **completeness**: for every `PTree` `t` with
+    `WellPrec t`, the parser reads `flatten t` and returns `erase t` (the Go-shaped node; `desugar n = eraseT t`).
+  * `expr_sound`, `rhs_sound`, `parse_sound` — **soundness**: whatever the parser accepts is the printing of a well-formed
+    tree, and the node returned is `erase` of it.  `parse_iff` states both directions at the level of `Parser.parse`;
+    `parse_rejects`: what is not in the grammar is rejected.
   * `unambiguous` — two well-formed trees with the same tokens denote the same node.
   * `paren_neutral_general` — C10: well-formed trees with the same node (e.g. differing in redundant parentheses only)
-    parse to the same result.
+    parse to the same result and evaluate alike.
+  * `rhs_extends_until` — C01: a projection (and so its right-hand side) is followed only by the end of the input, a
+    closing token, `,`, `in`, a binary operator or `[]`.
 
-  Proofs: `Proofs/GrammarF0.lean` (infrastructure, fragment without projections), `Proofs/GrammarF2.lean` (projections,
-  the induction).
+  Proofs: `Proofs/GrammarF0.lean` (infrastructure, evaluation lemmas, sequences), `Proofs/GrammarF2.lean` (completeness:
+  every form, the induction over `PTree`), `Proofs/GrammarS.lean` (soundness: `indexP`, the statement `Sound`, sequences,
+  calls, `let`), `Proofs/GrammarS2.lean` (soundness: primary forms, the operator loop, right-hand sides, the induction on
+  fuel), `Proofs/GrammarR.lean` (followers).  Fuel: `Proofs/Fuel.lean` (`fuel_sufficient`) removes the fuel side
+  condition from the statements about `Parser.parse`.
 -/
 import Jmes.Proofs.GrammarF2
+import Jmes.Proofs.GrammarS2
+import Jmes.Proofs.GrammarR
 import Jmes.Proofs.Fuel
+import Jmes.Proofs.ParserInv
 namespace Jmes.C04G
 open Jmes Jmes.Parser Jmes.Pratt Jmes.Grammar
 
@@ -91,6 +103,162 @@ theorem wellPrec_paren {t : PTree} (h : WellPrec t) : WellPrec (.paren t) := by
   simp only [wp, Bool.not_false, Bool.true_and, h']
 
 
+/-! ## Soundness -/
+
+open GrammarS in
+/-- **Soundness, general form**: whenever `expression fuel p` succeeds on a token list (whose punctuation tokens carry
+    their standard spelling: true of every token the lexer produces), it has consumed exactly the tokens of a
+    well-formed tree `t`, the node it returns is `erase t`, `t` can be read at power `p`, and the loop stops at the
+    token that follows. -/
+theorem expr_sound {fuel p : Nat} {ts : List Token} {n : INode} {s' : PState} (hC : ∀ t ∈ ts, Canon t) (hp : p < top)
+    (h : (expression fuel p).run (stOf ts) = .ok (n, s')) :
+    ∃ (t : PTree) (rest : List Token), ts = Grammar.flatten t ++ rest ∧ s' = stOf rest ∧ WellPrec t ∧ erase t = n ∧
+      desugar n = eraseT t ∧ p < llevel t :=
+  let ⟨t, rest, h1, h2, h3, h4, h5, _⟩ := (sound fuel).expr p ts n s' hC hp h
+  ⟨t, rest, h2, h1, h3, h4, by rw [← h4]; rfl, h5⟩
+
+open GrammarS in
+/-- the same for a right-hand side -/
+theorem rhs_sound {fuel : Nat} {ts : List Token} {o : Option INode} {s' : PState} (hC : ∀ t ∈ ts, Canon t)
+    (h : (projection fuel projectionPrecedence).run (stOf ts) = .ok (o, s')) :
+    ∃ (rhs : PTree) (rest : List Token), ts = flat true rhs ++ rest ∧ s' = stOf rest ∧
+      (rhs = .icur ∧ o = none ∨ wp true rhs = true ∧ lvlProj < llevel rhs ∧ o = some (erase rhs)) := by
+  obtain ⟨rhs, rest, h1, h2, h3, h4, _⟩ := (sound fuel).proj ts o s' hC h
+  refine ⟨rhs, rest, h2, h1, ?_⟩
+  cases hi : rhs.isIcur
+  · simp only [RhsOK, hi, Bool.false_or, Bool.and_eq_true, decide_eq_true_eq] at h3
+    exact Or.inr ⟨h3.1, h3.2, by rw [h4, GrammarF0.optNode_of_ne hi]⟩
+  · have := GrammarF0.isIcur_eq hi
+    subst this
+    exact Or.inl ⟨rfl, h4⟩
+
+theorem canon_of_tokShape {t : Token} (h : Lexical.TokShape t.type t.value) : Canon t := by
+  intro v hv
+  obtain ⟨ty, val⟩ := t
+  simp only at h hv ⊢
+  cases ty <;> simp only [canonValue, reduceCtorEq, Option.some.injEq] at hv <;> subst hv <;>
+    simpa only [Lexical.TokShape, Lexical.kwLet, Lexical.kwIn] using h
+
+open GrammarS in
+/-- **`parse_sound`**: whatever `Parser.parse` accepts is the printing of a well-formed tree, and the node returned
+    is the one the grammar assigns to it: the parser never accepts anything outside the grammar and never
+    reinterprets -/
+theorem parse_sound {e : Bytes} {n : INode} (h : Parser.parse e = .ok n) :
+    ∃ t : PTree, WellPrec t ∧ lexAll e = (Grammar.flatten t ++ [endTok], none) ∧ erase t = n ∧ desugar n = eraseT t := by
+  cases hl : lexAll e with
+  | mk ts err =>
+    cases err with
+    | some er =>
+      obtain ⟨e', he'⟩ := ParserInv.parse_lex_error hl
+      rw [he'] at h; cases h
+    | none =>
+      obtain ⟨pre, rfl, hpre⟩ := Lex.Lexes.ends (Lex.lexAll_sound hl)
+      rw [parse_of_lex hl] at h
+      unfold runTop at h
+      split at h
+      · rename_i n1 s1 hrun
+        cases h
+        rw [bind_run] at hrun
+        split at hrun
+        · rename_i n2 s2 hexp
+          have hC : AllCanon (pre ++ [⟨.end, []⟩]) := by
+            intro t ht
+            rcases List.mem_append.1 ht with ht | ht
+            · exact canon_of_tokShape (hpre t ht)
+            · simp only [List.mem_singleton] at ht; subst ht; intro v hv; cases hv
+          obtain ⟨t, rest, rfl, hts, hw, rfl, _, _⟩ := (sound _).expr 1 _ n2 s2 hC (by decide) hexp
+          rw [bind_ok (currType_run _)] at hrun
+          by_cases hend : (stOf rest).curr.type = .end
+          · simp only [hend, bne_self_eq_false, Bool.false_eq_true, if_false] at hrun
+            cases hrun
+            have hne := flat_noEnd hw
+            have hpe : ∀ x ∈ pre, x.type ≠ .end := fun x hx h0 => by
+              have := hpre x hx; rw [h0] at this; exact this
+            have hrest : rest = [⟨.end, []⟩] ∧ Grammar.flat false t = pre := by
+              rcases List.append_eq_append_iff.1 hts with ⟨a', h1, h2⟩ | ⟨c', h1, h2⟩
+              · -- flat t = pre ++ a', [end] = a' ++ rest
+                cases a' with
+                | nil => exact ⟨by simpa using h2.symm, by simpa using h1⟩
+                | cons a as =>
+                  exfalso
+                  simp only [List.cons_append, List.cons.injEq] at h2
+                  have : a ∈ Grammar.flat false t := by rw [h1]; simp
+                  exact hne a this (by rw [← h2.1])
+              · -- pre = flat t ++ c', rest = c' ++ [end]
+                cases c' with
+                | nil => exact ⟨by simpa using h2, by simpa using h1.symm⟩
+                | cons c cs =>
+                  exfalso
+                  rw [h2] at hend
+                  exact hpe c (by rw [h1]; simp) hend
+            refine ⟨t, hw, ?_, rfl, rfl⟩
+            rw [hts, hrest.1]; rfl
+          · have : ((stOf rest).curr.type != TokenType.end) = true := by simpa using hend
+            simp only [this, if_true] at hrun
+            rw [bind_err (e := .unexpectedToken) rfl] at hrun
+            cases hrun
+        · cases hrun
+      · cases h
+
+/-- **C04, both directions**: `Parser.parse` accepts exactly the grammar, and builds exactly the tree the grammar
+    assigns -/
+theorem parse_iff (e : Bytes) (n : INode) :
+    Parser.parse e = .ok n ↔
+      ∃ t : PTree, WellPrec t ∧ lexAll e = (Grammar.flatten t ++ [endTok], none) ∧ erase t = n :=
+  ⟨fun h => let ⟨t, h1, h2, h3, _⟩ := parse_sound h; ⟨t, h1, h2, h3⟩,
+   fun ⟨_, h1, h2, h3⟩ => h3 ▸ parse_complete h1 h2⟩
+
+/-- what does not print a well-formed tree is rejected -/
+theorem parse_rejects {e : Bytes} (h : ¬ ∃ t : PTree, WellPrec t ∧ lexAll e = (Grammar.flatten t ++ [endTok], none)) :
+    ∃ err, Parser.parse e = .error err := by
+  cases hp : Parser.parse e with
+  | error err => exact ⟨err, rfl⟩
+  | ok n => obtain ⟨t, h1, h2, _⟩ := parse_sound hp; exact absurd ⟨t, h1, h2⟩ h
+
+/-! ## What follows a projection (C01) -/
+
+/-- **`rhs_extends_until`**: in a well-formed tree every projection form (`l[*] r`, `l.* r`, `l[] r`, `l[?c] r`,
+    `l[a:b:c] r`), and hence its right-hand side `r`, is followed only by the end of the input, `)`, `]`, `}`, `,`,
+    `in`, a binary operator (`|`, `||`, `&&`, a comparison or an arithmetic operator) or `[]`: the right-hand side
+    extends over every selector that follows. -/
+theorem rhs_extends_until {t : PTree} (h : WellPrec t) :
+    ∀ x ∈ projFollowers false t endTok, isRhsFollower x.type = true :=
+  GrammarR.rhs_followers h
+
+/-- the followers, listed -/
+theorem isRhsFollower_iff (ty : TokenType) :
+    isRhsFollower ty = true ↔
+      ty ∈ [.end, .closeParen, .closeSqBrace, .closeBrace, .comma, .in, .flatten, .pipe, .or, .and, .equal, .notEqual,
+        .less, .lessOrEqual, .greater, .greaterOrEqual, .add, .subtract, .asterisk, .multiply, .divide, .integerDivide,
+        .modulo] := by
+  cases ty <;> simp [isRhsFollower, binLevel]
+
+/-- in particular no selector token and nothing that starts an expression follows a projection -/
+example : isRhsFollower .dot = false ∧ isRhsFollower .openSqBrace = false ∧ isRhsFollower .arrayWildcard = false ∧
+    isRhsFollower .filter = false ∧ isRhsFollower .objectWildcard = false ∧
+    isRhsFollower .unquotedIdentifier = false ∧ isRhsFollower .openParen = false := by decide
+
+/-! ## Rejection, concretely -/
+
+/-- when `expression` stops before the end of the input, `Parser.parse` reports a syntax error -/
+theorem parse_of_prefix {e : Bytes} {ts rest : List Token} {n : INode} {f : Nat} (hl : lexAll e = (ts, none))
+    (hx : expression f 1 (stOf ts) = .ok (n, stOf rest)) (hr : (stOf rest).curr.type ≠ .end) :
+    Parser.parse e = .error .unexpectedToken := by
+  have hnf := Fuel.fuel_sufficient e
+  rw [parse_of_lex hl] at hnf ⊢
+  have hne : expression (fuelFor ts.length) 1 (stOf ts) ≠ .error .fuel := by
+    intro h'
+    apply hnf
+    unfold runTop
+    rw [bind_err h']
+  have h1 := expression_mono_res (Nat.le_max_left _ f) hne
+  have h2 := expression_mono (Nat.le_max_right (fuelFor ts.length) f) hx
+  unfold runTop
+  rw [bind_ok (h1.symm.trans h2), bind_ok (currType_run _)]
+  have : ((stOf rest).curr.type != TokenType.end) = true := by simpa using hr
+  simp only [this, if_true]
+  rfl
+
 /-! ## The sanity expressions of `Spec/Grammar.lean`: `Parser.parse` returns `erase` of the exhibited tree -/
 
 section Examples
@@ -128,6 +296,49 @@ example : Parser.parse (bs "a || (b && c)") = Parser.parse (bs "a || b && c") :=
 -- … and `foo[*].(bar.baz)`? no: `(foo[*].bar.baz)` and `foo[*].bar.baz`
 example : Parser.parse (bs "(foo[*].bar.baz)") = Parser.parse (bs "foo[*].bar.baz") :=
   (paren_neutral_general (p := .paren e01) (q := e01) (by decide) (by decide) rfl (by decide) (by decide)).1
+-- `parse_sound`, concretely: the result for `a.b[0].c` comes from a well-formed tree with these very tokens
+example : ∃ t, WellPrec t ∧ lexAll (bs "a.b[0].c") = (Grammar.flatten t ++ [endTok], none) ∧ erase t = erase e03 :=
+  let ⟨t, h1, h2, h3, _⟩ := parse_sound (parse_complete (t := e03) (by decide) (by decide)); ⟨t, h1, h2, h3⟩
+-- `expr_sound` / `complete_operand` on a prefix: in `a b` the parser reads `a` and stops
+example : ∃ f, (expression f 1).run (stOf (Grammar.flatten (idt "a") ++ [⟨.unquotedIdentifier, bs "b"⟩, endTok])) =
+    .ok (erase (idt "a"), stOf [⟨.unquotedIdentifier, bs "b"⟩, endTok]) :=
+  complete_operand (t := idt "a") (by decide) (by decide) ⟨by decide, by decide⟩
+-- … so `a b` is rejected (`parse_of_prefix`), and therefore (`parse_iff`) no well-formed tree prints as `a b`:
+-- the grammar has no juxtaposition, and the parser does not invent one
+theorem ab_rejected : Parser.parse (bs "a b") = .error .unexpectedToken := by
+  obtain ⟨f, hf⟩ := complete_operand (t := idt "a") (p := 1) (by decide) (by decide)
+    (rest := [⟨.unquotedIdentifier, bs "b"⟩, endTok]) ⟨by decide, by decide⟩
+  exact parse_of_prefix (ts := Grammar.flatten (idt "a") ++ [⟨.unquotedIdentifier, bs "b"⟩, endTok]) (by decide) hf
+    (by decide)
+theorem ab_not_in_grammar :
+    ¬ ∃ t : PTree, WellPrec t ∧ lexAll (bs "a b") = (Grammar.flatten t ++ [endTok], none) := by
+  rintro ⟨t, h1, h2⟩
+  have h3 := parse_complete h1 h2
+  rw [ab_rejected] at h3; cases h3
+-- `parse_iff` / `parse_rejects`
+example : ∃ err, Parser.parse (bs "a b") = .error err := parse_rejects ab_not_in_grammar
+example : (Parser.parse (bs "foo[*][*]") = .ok (erase e07)) ↔
+    ∃ t : PTree, WellPrec t ∧ lexAll (bs "foo[*][*]") = (Grammar.flatten t ++ [endTok], none) ∧ erase t = erase e07 :=
+  parse_iff _ _
+-- `complete_rhs` / `rhs_sound`: `.bar.baz` as a right-hand side
+example : ∃ f, (projection f projectionPrecedence).run
+    (stOf (flat true (.dotId (.dotId .icur (idt "bar")) (idt "baz")) ++ [endTok])) =
+      .ok (some (.pipe (.field (bs "bar")) (.field (bs "baz"))), stOf [endTok]) :=
+  complete_rhs (t := .dotId (.dotId .icur (idt "bar")) (idt "baz")) (by decide) (by decide) ⟨by decide, by decide⟩
+-- `rhs_extends_until`: in `foo[*].bar | [0]` the projection is followed by `|`
+example : ∀ x ∈ projFollowers false e02 endTok, isRhsFollower x.type = true := rhs_extends_until (by decide)
+example : projFollowers false e02 endTok = [op .pipe "|"] := by decide
+-- `wellPrec_paren` / `erase_paren`
+example : WellPrec (.paren e01) ∧ erase (.paren e01) = erase e01 := ⟨wellPrec_paren (by decide), rfl⟩
+-- Observations (not part of the grammar's discipline, but visible in `erase`): a repeated key of a multi-select hash,
+-- or a repeated variable of `let`, keeps its last expression only — the earlier one is dropped from the tree
+-- (`{a: b, a: c}` builds the node of the two-member form with the single member `a: c`)
+example : erase (.multiHash [(⟨.unquotedIdentifier, bs "a"⟩, idt "b"), (⟨.unquotedIdentifier, bs "a"⟩, idt "c")]) =
+    .selectObjectCurrent [(bs "a", .field (bs "c"))] := rfl
+example : Parser.parse (bs "{a: b, a: c}") = .ok (.selectObjectCurrent [(bs "a", .field (bs "c"))]) :=
+  parse_complete
+    (t := .multiHash [(⟨.unquotedIdentifier, bs "a"⟩, idt "b"), (⟨.unquotedIdentifier, bs "a"⟩, idt "c")])
+    (by decide) (by decide)
 end Examples
 
 end Jmes.C04G
